@@ -1,2 +1,104 @@
-From Coq Require Import ZArith List.
-From FV Require Import C19.Model C19.Proofs.
+(* C19 — non-vacuity examples for the hypotheses of Props.v, and witnesses for the places where a
+   naive reading of the property is false of the faithful model *)
+From Coq Require Import ZArith List Bool Lia.
+From FV Require Import C19.Model C19.Spec C19.Proofs.
+Import ListNotations.
+Open Scope Z_scope.
+
+Definition liga := 1818846049.
+Definition wght := 2003265652.
+
+(* IFT: 0 glyph-keyed {1,2}; 1 glyph-keyed liga + wght[100,200]; 2 partial, conjunctive children 0,1;
+        3 partial wildcard, disjunctive children 0,1.   IFTX: 0 glyph-keyed {2}, same uri as IFT 0 *)
+Definition ex_ift : table := mkT 0 1 true
+  [ mkE (mkED [1; 2] [] []) [] false false 10 GlyphKeyed 100;
+    mkE (mkED [] [liga] [(wght, [(6553600, 13107200)])]) [] false false 11 GlyphKeyed 200;
+    mkE (mkED [2; 3] [] []) [0%nat; 1%nat] true false 12 PartInv 300;
+    mkE (mkED [] [] []) [0%nat; 1%nat] false false 13 PartInv 400 ] [].
+Definition ex_iftx : table := mkT 1 2 true
+  [ mkE (mkED [2] [] []) [] false false 10 GlyphKeyed 100 ] [].
+Definition ex_font := [ex_ift; ex_iftx].
+Definition ex_d1 : sdef := mkD (CpIncl [2]) (FSet []) (DRanges []).
+Definition ex_d2 : sdef := mkD (CpIncl [2; 3]) (FSet [liga]) (DRanges [(wght, [(9830400, 9830400)])]).
+
+Example ex_font_wf : font_wf ex_font.
+Proof.
+  intros t [<-|[<-|[]]]; apply entries_decodable_wf; try reflexivity;
+    intros i e H; repeat (destruct i as [|i]; [inversion H; subst; cbn; repeat constructor; discriminate|]);
+    destruct i; discriminate.
+Qed.
+
+Example ex_subset : sdef_subset ex_d1 ex_d2.
+Proof.
+  split; [|split]; cbn.
+  - intros x [<-|[]]. left. reflexivity.
+  - intros x [].
+  - intros t v [rs [[] _]].
+Qed.
+
+(* d1 offers the two entries with codepoint 2 and the disjunctive parent; d2 additionally the
+   feature/design-space entry and the conjunctive parent: strict growth, hypotheses satisfiable *)
+Example ex_offered_d1 : option_map (map cand_entry) (offered ex_font ex_d1)
+  = Some [(0, 1, 0%nat, 10, GlyphKeyed, 100); (0, 1, 3%nat, 13, PartInv, 400); (1, 2, 0%nat, 10, GlyphKeyed, 100)].
+Proof. vm_compute. reflexivity. Qed.
+Example ex_offered_d2 : option_map (map cand_entry) (offered ex_font ex_d2)
+  = Some [(0, 1, 0%nat, 10, GlyphKeyed, 100); (0, 1, 1%nat, 11, GlyphKeyed, 200); (0, 1, 2%nat, 12, PartInv, 300);
+          (0, 1, 3%nat, 13, PartInv, 400); (1, 2, 0%nat, 10, GlyphKeyed, 100)].
+Proof. vm_compute. reflexivity. Qed.
+
+(* selection under d2: the IFT scope takes the partial patch with the larger intersection (entry 2:
+   two codepoints), the IFTX scope its glyph-keyed patch; no duplicate uri *)
+Example ex_select_d2 : option_map group_uris (select_next ex_font ex_d2) = Some [12; 10].
+Proof. vm_compute. reflexivity. Qed.
+(* with only glyph-keyed candidates the shared uri 10 appears once *)
+Example ex_select_dedup :
+  option_map group_uris (select_next ex_font (mkD (CpIncl [1; 2]) (FSet []) (DRanges []))) = Some [13; 10]
+  /\ option_map group_uris
+       (select_next [mkT 0 1 true (firstn 2 (t_entries ex_ift)) []; ex_iftx] (mkD (CpIncl [2]) (FSet [liga]) DAll))
+     = Some [10; 11].
+Proof. vm_compute. split; reflexivity. Qed.
+
+(* a round that makes progress, and a second round with the same group that reports an error *)
+Example ex_round :
+  exists g, select_next ex_font ex_d2 = Some (Some g) /\
+    apply_next g [(10, Pending); (12, Pending)] true = Some [(10, Pending); (12, Applied)] /\
+    apply_next g [(10, Pending); (12, Applied)] true = Some [(10, Applied); (12, Applied)] /\
+    apply_next g [(10, Applied); (12, Applied)] true = None.
+Proof. eexists. split; [vm_compute; reflexivity|]. vm_compute. repeat split; reflexivity. Qed.
+
+(* ---- witnesses ---- *)
+(* the well-formedness hypothesis of c19_entry_intersects_matches_spec is needed: an axis listed
+   without any segment (never produced by the decoder) matches DesignSpace::All in the code but
+   has no point in common with anything *)
+Example wf_needed_refuted : exists e d, entry_intersects e d = true /\ ~ spec_dims e d.
+Proof.
+  exists (mkED [] [] [(wght, [])]), (mkD (CpIncl []) (FSet []) DAll). split; [reflexivity|].
+  intros [_ [_ [H|[t [x [[rs [[H|[]] [lo [hi [[] _]]]]] _]]]]]]; [discriminate|].
+  inversion H; subst. Qed.
+
+(* "prefers the candidate with the largest intersection" holds for the IFTX scope only among the
+   candidates whose uri differs from the IFT scope's choice: here IFTX entry 0 (uri 5, three
+   codepoints) loses to entry 1 (uri 6, one codepoint) because IFT already selected uri 5 *)
+Example iftx_choice_excludes_ift_uri_refuted :
+  exists f d g cands b, select_next f d = Some (Some g) /\ offered f d = Some cands /\
+    g = GMixed (SPartial (nth 0 cands b)) (SPartial (nth 2 cands b)) /\
+    ~ best_in (nth 2 cands b) (filter (pred_piftx (cid_of 0 f) (cid_of 1 f)) cands).
+Proof.
+  exists [mkT 0 1 true [mkE (mkED [1] [] []) [] false false 5 PartInv 100] [];
+          mkT 1 2 true [mkE (mkED [1; 2; 3] [] []) [] false false 5 PartInv 100;
+                        mkE (mkED [1] [] []) [] false false 6 PartInv 200] []],
+         (mkD (CpIncl [1; 2; 3]) (FSet []) (DRanges [])).
+  eexists. eexists. exists (mkC 0 0 true 0%nat 0 GlyphKeyed 0 info_default).
+  split; [vm_compute; reflexivity|]. split; [vm_compute; reflexivity|]. split; [reflexivity|].
+  intros [_ H]. specialize (H (mkC 1 2 true 0%nat 5 PartInv 100 (mkI 3 0 [] 0))).
+  destruct H as [H _]; [vm_compute; auto|]. apply H. vm_compute. reflexivity.
+Qed.
+
+(* entry order is per table: among fully invalidating candidates of equal intersection the IFTX
+   entry with the smaller order wins although the IFT table is listed first *)
+Example full_choice_order_is_per_table :
+  option_map group_uris (select_next
+    [mkT 0 1 true [mkE (mkED [] [] []) [] false false 1 GlyphKeyed 100; mkE (mkED [7] [] []) [] false false 2 FullInv 200] [];
+     mkT 1 2 true [mkE (mkED [7] [] []) [] false false 3 FullInv 100] []]
+    (mkD (CpIncl [7]) (FSet []) (DRanges []))) = Some [3].
+Proof. vm_compute. reflexivity. Qed.
